@@ -153,17 +153,22 @@ class CacheView(Table):
     def __iter__(self):
 
         # serve whatever is in the cache first
+        i = 0
         for row in self.cache:
             yield row
+            i += 1
 
         if not self.cachecomplete:
 
             # serve the remainder from the inner iterator
             it = iter(self.inner)
-            for row in islice(it, len(self.cache), None):
-                # maybe there's more room in the cache?
-                if not self.n or len(self.cache) < self.n:
+            for row in islice(it, i, None):
+                # maybe there's more room in the cache? (N.B., another
+                # iterator may have cached this row already)
+                if i == len(self.cache) \
+                        and (not self.n or len(self.cache) < self.n):
                     self.cache.append(row)
+                i += 1
                 yield row
 
             # does the cache contain a complete copy of the inner table?
